@@ -32,12 +32,20 @@ LEVEL = 'proof'
 THEOREMS = [
     'CC.C06_unique', 'CC.C06_symm', 'CC.C06_ref_indep', 'CC.C06_same_node_zero',
     'CC.C06_across_ideal_vs_zero', 'CC.C06_port_equation', 'CC.C06_thevenin', 'CC.C06_norton',
-    'CC.C06_parallel', 'CC.C06_series', 'CC.C06_impl_early_correct', 'CC.C06_impl_eq_spec',
+    'CC.C06_parallel', 'CC.C06_series', 'CC.C06_impl_early_correct', 'CC.C06_impl_eq_spec_partial',
     'CC.C06_floating_island_counterexample', 'CC.C06_exists', 'CC.C06_isolated_port',
     'CC.C06_port_invariant_perm', 'CC.C06_port_invariant_rename', 'CC.C06_port_invariant_reverse', 'CC.C06_port_invariant_reref',
 ]
-OPEN_STATEMENTS = ['CC.C06_impl_complete_statement (false for floating groups of nodes: C06_floating_island_counterexample)']
+OPEN_STATEMENTS = [
+    'CC.C06_impl_complete_statement (false for floating groups of nodes: C06_floating_island_counterexample)',
+    'code-level equality WITH pruned unknowns (a node on open branches only, e.g. a capacitor at w = 0): C06_impl_eq_spec_partial assumes '
+    'nothing pruned and a well-posed probe network, so the pruning / re-indexing path (keepMask, subMatrix, countBefore) is covered by no '
+    'theorem — model + correspondence + oracle only (C06_isolated_port covers the isolated PORT node)',
+    'elementImpedance, openCircuitVoltage, shortCircuitCurrent, Thevenin/Norton records, sweep / dcResistance and the jwL, 1/(jwC) clause: '
+    'model + correspondence + oracle only (no Lean theorem)',
+]
 ASSUMPTIONS = [
+    'the code-level theorem C06_impl_eq_spec_partial speaks about open_circuit_impedance on networks without pruned unknowns only; everything else at code level rests on the correspondence between CC/Model/Port.lean and the implementation and on the exact Spec oracle (op port_spec)',
     'numpy.linalg.solve is a parameter of the model (certificates checked exactly by the driver); binary64 agrees with field arithmetic within 1e-7 relative on instances with cond < 1e8',
     'hand-written model CC/Model/Port.lean is tied to the code by the port_pre / port_z / elem_z / oc_voltage / sc_current / port_sweep correspondence only',
     'the per-frequency networks of Circuit/impedance.py are the implementation\'s own transform_circuit outputs (modelled under C02/C07)',
